@@ -17,18 +17,19 @@ import Manticore.Lemmas.SmbLocality
 namespace Manticore.C04
 open Manticore Manticore.SmbIR Manticore.Gen.SmbCommands
 
-/-- the commands whose two programs are NOT established to mirror each other: exactly these 25.
-    For the other 90 structures `Mirror` holds: same slots, same order, same widths, same byte order and
+/-- the commands whose two programs are NOT established to mirror each other: exactly these 19.
+    For the other 96 structures `Mirror` holds: same slots, same order, same widths, same byte order and
     same length dependencies in Marshal and Unmarshal, no field changed after it was emitted, offsets
     reset between the blocks, lengths read before the buffers they describe, guards no larger than the
     reads they protect, every declared field on the wire, and — for the AndX commands — the AndX block
     read from the head of the parameter stream and exactly its four bytes cut off before the first field
     is read.  Swapping two reads, changing a width or an endianness on one side only, dropping a field,
-    an `offset = 0` or the AndX stanza (or cutting off another number of bytes) in any of the 90 makes
+    an `offset = 0` or the AndX stanza (or cutting off another number of bytes) in any of the 96 makes
     this fail to check.  Ten of the sixteen AndX commands are inside (the three without fields,
     NtCreateAndxRequest/Response, ReadAndxRequest/Response, TreeConnectAndxRequest/Response,
-    WriteAndxResponse); the other six have loops, padding arithmetic, a conditional field or a dropped
-    field. -/
+    WriteAndxResponse); the other six have loops, padding arithmetic or an optional field and are in the loop
+    fragment (`loop_mirror_commands`).  A nested value decoded from the whole block right behind `offset = 0` is read
+    as decoded from `blk[offset:]` (`normWhole`: ReadResponse, FindCloseResponse, WriteAndUnlockRequest). -/
 theorem non_mirror_commands :
     (commands.filter (fun c => !Mirror c)).map (·.name) =
       ["FindResponse", "FindUniqueResponse", "LockAndReadResponse", "LockingAndxRequest",
@@ -45,8 +46,10 @@ theorem andx_consumed :
       (commands.filter (·.isAndX)).length = 16 := by decide +kernel
 
 /-- the recorded round-trip findings, decided on the extracted programs: exactly these commands and
-    reasons (KNOWN_FINDINGS.txt lists the same keys).  A new structural defect in another command
-    changes this list. -/
+    reasons (KNOWN_FINDINGS.txt lists the same keys): the two 43-byte entry windows, which are MS-CIFS's size.  The
+    other thirteen entries this list once had were repaired in the repository (fixes/C04-*.diff): a field never
+    marshalled or never unmarshalled, nested strings decoded from the start of the block, an optional field under a
+    word count never reached or not reset.  A new structural defect in another command changes this list. -/
 theorem known_roundtrip_findings :
     commands.filterMap (fun c => (knownRtKind c).map (fun k => (k, c.name))) =
       [(.fixedEntrySize, "FindResponse"), (.fixedEntrySize, "FindUniqueResponse")] := by decide +kernel
@@ -138,7 +141,7 @@ theorem mirror_types_lawful :
     commands.all (fun c => !Mirror c || c.subTypes.all (Manticore.SmbCodecs.lawfulTypes.contains ·)) = true := by
   decide +kernel
 
-/-- **C04 for the regenerated commands.**  Each of the 90 `Mirror` command structures of this tree
+/-- **C04 for the regenerated commands.**  Each of the 96 `Mirror` command structures of this tree
     round-trips every declared field and its AndX block, for all internally consistent field values and all initial
     states of the receiver, with the C06 models as nested codecs. -/
 theorem smb_roundtrip (c : Cmd) (hmem : c ∈ commands) (hm : Mirror c = true) (env0 env : Env)
@@ -176,7 +179,7 @@ theorem mirror_reencodable :
     commands.all (fun c => !Mirror c || (Reencodable c && c.fmtTypes.all (· == "SMB_STRING"))) = true := by
   decide +kernel
 
-/-- **C04, re-encoding, for the regenerated commands**: for each of the 90 `Mirror` structures,
+/-- **C04, re-encoding, for the regenerated commands**: for each of the 96 `Mirror` structures,
     unmarshalling the bytes of a consistent structure and marshalling the result gives the same bytes. -/
 theorem smb_reencode (c : Cmd) (hmem : c ∈ commands) (hm : Mirror c = true) (env0 env : Env)
     (hc : consistent Manticore.SmbCodecs.std c env = true) :
@@ -191,13 +194,16 @@ theorem smb_reencode (c : Cmd) (hmem : c ∈ commands) (hm : Mirror c = true) (e
 
 /-! ## the loop fragment: list fields marshalled by a `range` loop and read back by a counted loop -/
 
-/-- **Which commands the loop fragment adds**: exactly these eight satisfy `MirrorLoops` without satisfying
+/-- **Which commands the loop fragment adds**: exactly these twelve satisfy `MirrorLoops` without satisfying
     `Mirror`.  LockingAndxRequest: two lists of LOCKING_ANDX_RANGE64 written by `range` loops and read back by
     counted loops running to `NumberOfRequestedUnlocks` / `NumberOfRequestedLocks` through 20-byte windows;
-    OpenAndxRequest: the fixed array `Reserved [2]USHORT` written by a `range` loop and filled in place;
+    OpenAndxRequest, OpenAndxResponse, LockAndReadResponse, QueryInformationResponse: the fixed array `Reserved [n]USHORT`
+    written by a `range` loop and filled in place (the last three since fixes/C04-reserved-words-marshalled.diff and
+    fixes/C04-openandx-response-nmpipe-reserved.diff);
     TransactionRequest: `Setup []USHORT` read back by a loop running to `SetupCount` into a freshly made list;
-    WriteAndxRequest, WriteRawRequest: `OffsetHigh` written iff non-zero as the last parameter field and read under
-    `WordCount == 14`, the word count the block has with it (12 without);
+    WriteAndxRequest, WriteRawRequest, ReadRawRequest: `OffsetHigh` written iff non-zero as the last parameter field,
+    set to zero by Unmarshal and then read under `WordCount == 14` (10 for READ_RAW), the word count the block has
+    with it (12, 8 without);
     SessionSetupAndxRequest, SessionSetupAndxResponse: `Pad` read with a length computed by arithmetic
     (`UnicodePasswordLen` rounded up to even; one byte when `len(P)+3` is odd);
     WriteMpxRequest (and WriteAndxRequest): the last buffer read not followed by an advance of `offset`. -/
@@ -208,17 +214,16 @@ theorem loop_mirror_commands :
        "SessionSetupAndxResponse", "TransactionRequest", "WriteAndxRequest", "WriteMpxRequest",
        "WriteRawRequest"] := by decide +kernel
 
-/-- `MirrorLoops` extends `Mirror`: each of the 90 `Mirror` commands satisfies it -/
+/-- `MirrorLoops` extends `Mirror`: each of the 96 `Mirror` commands satisfies it -/
 theorem mirror_loops_extends : commands.all (fun c => !Mirror c || MirrorLoops c) = true := by decide +kernel
 
-/-- **What is still outside**: exactly these 17 commands satisfy neither predicate; for them the round trip is
-    decided by the correspondence runs only.  Thirteen carry a recorded structural finding
-    (`known_roundtrip_findings`: a field never marshalled / never unmarshalled, the whole buffer read three times,
-    `OffsetHigh` of ReadRawRequest under a word count its own Marshal never reaches, the optional array of
-    WriteAndCloseRequest, a 43-byte window for 53-byte entries); of the other four FindCloseResponse and
-    WriteAndUnlockRequest decode a nested string from the whole block instead of from `offset`, RenameRequest
-    reads its attributes without checking the error or using the count, and WriteRequest puts its buffer ahead of
-    the parameter block. -/
+/-- **What is still outside**: exactly these 7 commands satisfy neither predicate; for them the round trip is
+    decided by the correspondence runs only.  Two carry the recorded structural finding (`known_roundtrip_findings`:
+    a 43-byte window for 53-byte entries); NegotiateRequest decodes `Dialects`, which reads to the end of its input
+    and is not among the lawful nested types; NegotiateResponse writes and reads two null-terminated strings
+    (literal terminator bytes, `rawDataContent` re-sliced); RenameRequest reads its attributes without checking the
+    error or using the count; WriteAndCloseRequest has an optional *array* (`Reserved [3]ULONG`, written iff
+    non-zero, zeroed and read under `WordCount == 14`); WriteRequest puts its buffer ahead of the parameter block. -/
 theorem non_mirror_loops_commands :
     (commands.filter (fun c => !MirrorLoops c)).map (·.name) =
       ["FindResponse", "FindUniqueResponse", "NegotiateRequest", "NegotiateResponse",
@@ -234,14 +239,15 @@ theorem non_mirror_loops_commands :
     elements that each is in its type's domain and is left as it is by its own `Marshal` (`tupOk`, `tupFix`: the
     loop marshals a copy, so the sender keeps the element as it was).  The codec laws are needed on the element
     types too (`Cmd.subTypesL`).  An integer emitted iff non-zero (`if c.F != 0 { … }`, last parameter field behind
-    fixed-width fields) against `if WordCount == k { … }`: both forms round-trip, `WordCount` telling which
-    (`optTrailing`: `k` is the word count with the field and not the one without).  A buffer whose length is the
+    fixed-width fields) against `c.F = 0; if WordCount == k { … }`: both forms round-trip, `WordCount` telling which
+    (`optTrailing`: `k` is the word count with the field and not the one without), whatever the receiver held.  A buffer whose length is the
     local `padLen` (`padLen := int(c.G)` / `0`, then `if padLen%2 == 1 { padLen++ }` or `if (len(P)+3)%2 == 1 { padLen = 1 }`):
     `consistent` asks that the sender's buffer has the length that arithmetic gives (`relationsHold`).
     `receiverFits` is what Unmarshal takes from the receiving structure instead of from the wire: a fixed array has
-    the length of the sender's — in Go both have the declared length `[n]T`; the model's environments are untyped —,
-    and an optional integer the sender holds as zero is zero in the receiver (a structure fresh from `New…()`; decoding
-    the short form into a structure that holds a stale value keeps it: `optional_stale_counterexample`). -/
+    the length of the sender's — in Go both have the declared length `[n]T`; the model's environments are untyped.
+    (It said more before fixes/C04-optional-offsethigh-reset.diff: an optional integer the sender holds as zero had to
+    be zero in the receiver, because the short form left a stale value in place; the fragment now admits an optional
+    integer only behind its reset, `optional_stale_reset`.) -/
 theorem mirror_loops_roundtrip {C : Codecs} {T : String → Prop} (hC : LawfulCodecs C T) (c : Cmd)
     (hm : MirrorLoops c = true) (hT : ∀ t ∈ c.subTypesL, T t) (env0 env : Env) (hc : consistent C c env = true)
     (hrecv : receiverFits c env0 env = true) :
@@ -274,7 +280,7 @@ private theorem loops_side (c : Cmd) (hmem : c ∈ commands) (hm : MirrorLoops c
     beq_iff_eq] at h
   exact ⟨h.1.1, h.1.2, h.2⟩
 
-/-- **C04 for the regenerated commands, loop fragment.**  Each of the 98 `MirrorLoops` command structures of this
+/-- **C04 for the regenerated commands, loop fragment.**  Each of the 108 `MirrorLoops` command structures of this
     tree round-trips every declared field and its AndX block, for all internally consistent field values and all
     initial states of the receiver that fit (`receiverFits`), with the C06 models as nested codecs. -/
 theorem smb_loops_roundtrip (c : Cmd) (hmem : c ∈ commands) (hm : MirrorLoops c = true) (env0 env : Env)
